@@ -223,10 +223,12 @@ func mcopyModel(mem []byte, dst, src, length *uint256.Int, gasAvail uint64) (aft
 	cost = 3 + 3*((length.Uint64()+31)/32)
 	if words > old {
 		cost += memGas(words) - memGas(old)
-		after = append(after, make([]byte, (words-old)*32)...)
 	}
 	if cost > gasAvail {
 		return nil, 0, false
+	}
+	if words > old {
+		after = append(after, make([]byte, (words-old)*32)...)
 	}
 	copy(after[dst.Uint64():dst.Uint64()+length.Uint64()], after[src.Uint64():src.Uint64()+length.Uint64()])
 	return after, cost, true
@@ -419,7 +421,8 @@ func init() {
 				for _, d := range mcopyAlphabet {
 					for _, s := range mcopyAlphabet {
 						for _, l := range mcopyAlphabet {
-							if !w.Mine() {
+							// ownership by hash: the innermost alphabet has as many values as there are workers
+							if !w.MineKey(fw.Hash("mcopy", d.Hex(), s.Hex(), l.Hex(), fmt.Sprint(pre))) {
 								continue
 							}
 							if w.Expired() {
